@@ -33,22 +33,24 @@ def nextAnswer (ans : List Nat) (n : Nat) : Nat × List Nat :=
 section
 variable {σ κ α : Type} [DecidableEq κ]
 
-/-- one iteration of the property loop -/
-def propStep (props : List (Prop' σ)) (st : σ) (path : List σ)
+/-- one iteration of the property loop.  `o i` = "a colleague has inserted a discovery for property `i` in the meantime"
+    (multi-threaded runs share the discoveries map; single-threaded: always `false`): the worker's read of
+    `discoveries.contains_key` is its own inserts OR the others'. -/
+def propStep (props : List (Prop' σ)) (st : σ) (path : List σ) (o : Nat → Bool)
     (acc : List Nat × Bool × List (Nat × List σ)) (i : Nat) : List Nat × Bool × List (Nat × List σ) :=
   match props[i]? with
   | none => acc
   | some p =>
-    if hasDisc acc.2.2 i then (acc.1.erase i, acc.2.1, acc.2.2)
+    if hasDisc acc.2.2 i || o i then (acc.1.erase i, acc.2.1, acc.2.2)
     else
       match p.exp with
       | .always => if !p.cond st then (acc.1, acc.2.1, discInsert acc.2.2 i path) else (acc.1, true, acc.2.2)
       | .sometimes => if p.cond st then (acc.1, acc.2.1, discInsert acc.2.2 i path) else (acc.1, true, acc.2.2)
       | .eventually => (if p.cond st then acc.1.erase i else acc.1, true, acc.2.2)
 
-def propLoop (props : List (Prop' σ)) (st : σ) (path : List σ) (eb : List Nat) (d : List (Nat × List σ)) :
-    List Nat × Bool × List (Nat × List σ) :=
-  (List.range props.length).foldl (propStep props st path) (eb, false, d)
+def propLoop (props : List (Prop' σ)) (st : σ) (path : List σ) (eb : List Nat) (d : List (Nat × List σ))
+    (o : Nat → Bool := fun _ => false) : List Nat × Bool × List (Nat × List σ) :=
+  (List.range props.length).foldl (propStep props st path o) (eb, false, d)
 
 /-- the inner loop: repeatedly choose among the remaining actions until one yields an in-boundary successor;
     `none` = no action left (the state is terminal) -/
@@ -83,8 +85,9 @@ def targetHit (count : Nat) : Bool :=
   | some t => decide (t ≤ count)
   | none => false
 
-/-- `'outer: loop` of `check_trace_from_initial` -/
-def traceLoop : Nat → σ → List σ → List κ → List Nat → List Nat → G σ → G σ × List Nat
+/-- `'outer: loop` of `check_trace_from_initial`.  `orc depth i`: what the colleagues have discovered when the worker
+    evaluates the state at that depth of this trace (see `propStep`). -/
+def traceLoop (orc : Nat → Nat → Bool) : Nat → σ → List σ → List κ → List Nat → List Nat → G σ → G σ × List Nat
   | 0, _, _, _, _, ans, g => (g, ans)
   | f + 1, st, path, gen, eb, ans, g =>
     let g := { g with maxDepth := max g.maxDepth path.length }
@@ -95,23 +98,23 @@ def traceLoop : Nat → σ → List σ → List κ → List Nat → List Nat →
       if P.key st ∈ gen then ({ g with disc := recordAll P.props eb path' g.disc }, ans)
       else
         let g := { g with stateCount := g.stateCount + 1, visits := path' :: g.visits }
-        let r := propLoop P.props st path' eb g.disc
+        let r := propLoop P.props st path' eb g.disc (orc path.length)
         let g := { g with disc := r.2.2 }
         if !r.2.1 then (g, ans)
         else
           match pickNext P.M st ((P.M.acts st).length + 1) (P.M.acts st) ans with
           | (none, ans') => ({ g with disc := recordAll P.props r.1 path' g.disc }, ans')
-          | (some n, ans') => traceLoop f n path' (P.key st :: gen) r.1 ans' g
+          | (some n, ans') => traceLoop orc f n path' (P.key st :: gen) r.1 ans' g
 
 /-- one trace: choose an initial state, then run the loop -/
-def trace (fuel : Nat) (ans : List Nat) (g : G σ) : G σ × List Nat :=
+def trace (fuel : Nat) (ans : List Nat) (g : G σ) (orc : Nat → Nat → Bool := fun _ _ => false) : G σ × List Nat :=
   match P.M.init with
   | [] => (g, ans)
   | is =>
     let (k, ans') := nextAnswer ans is.length
     match is[k]? with
     | none => (g, ans')
-    | some s => traceLoop P fuel s [] [] (initEbits P.props) ans' g
+    | some s => traceLoop P orc fuel s [] [] (initEbits P.props) ans' g
 
 /-- the worker loop: traces until `finish_when` matches or the target state count is reached (or `n` traces) -/
 def runTraces (fuel : Nat) : Nat → List Nat → G σ → G σ
@@ -121,6 +124,15 @@ def runTraces (fuel : Nat) : Nat → List Nat → G σ → G σ
     if P.finishMatches (discNames g'.disc) then g'
     else if targetHit P g'.stateCount then g'
     else runTraces fuel n ans' g'
+
+/-- ONE WORKER OF A MULTI-THREADED RUN: trace after trace, trace `j` cut off after `fuels[j]` iterations (a shutdown is
+    noticed at every step, so a trace can end anywhere), under the oracle `orc j` for what the colleagues discover.  No
+    stop condition of its own: the real worker performs a prefix of this. `g.disc` = the worker's OWN inserts. -/
+def tracesO (orc : Nat → Nat → Nat → Bool) : Nat → List Nat → List Nat → G σ → G σ
+  | _, [], _, g => g
+  | j, f :: fuels, ans, g =>
+    let r := trace P f ans g (orc j)
+    tracesO orc (j + 1) fuels r.2 r.1
 
 end
 end SR.Checker.Sim
